@@ -136,6 +136,9 @@ def check(plan, ctx):
     stat = ctx.call("aggregate", lambda: data.group_by(*by).aggregate(**aggs))
     if tuple(getattr(data, "_group_colnames", ())) != tuple(by):
         raise Violation("group_by did not record the group columns on the receiver")
+    stat2 = ctx.call("aggregate (second call on the grouped receiver)", lambda: data.aggregate(**aggs))
+    if build.snap_frame(stat2) != build.snap_frame(stat):
+        raise Violation("aggregating the same grouped receiver a second time gives a different result")
     data._group_colnames = ()
     if build.snap_frame(data) != before:
         raise Violation("aggregate changed its receiver")
